@@ -452,7 +452,9 @@ fn gen_free_element(
                     format!("{tdir}/t{i}_{temp_ctr}.tmp")
                 };
                 let mut g = vec![format!("{ws}{pf}TXTPP#temp {}", rel_path(dir, &tpath))];
-                for k in 0..rng.below(3) {
+                let body_lines = if o.big && rng.chance(1, 10) { 700 } else { rng.below(3) };
+                for k in 0..body_lines {
+                    // (a big body now and then: a temp file of more than 8 KiB)
                     g.push(format!("{ws}{pf}temp body {k} ü"));
                 }
                 if rng.chance(1, 3) {
